@@ -113,10 +113,10 @@ func (l *lexer) nextItem() ast.Token {
 
 // drain drains the output so the lexing goroutine will exit.
 // Called by the parser, not in the lexing goroutine.
-// func (l *lexer) drain() {
-// 	for range l.items {
-// 	}
-// }
+func (l *lexer) drain() {
+	for range l.items {
+	}
+}
 
 // lex creates a new scanner for the input string.
 func lex(input string) *lexer {
@@ -195,9 +195,10 @@ func lexText(l *lexer) stateFn {
 	case r == '.':
 		n := l.next()
 		if isNumeric(n) {
-			// backup twice
+			// back up over both runes: backup() can only undo the last next() (it subtracts
+			// the width of the last rune read), so return to the start of this item instead
 			l.backup()
-			l.backup()
+			l.pos = l.start
 			return lexNumber
 		}
 		l.backup()
@@ -209,9 +210,10 @@ func lexText(l *lexer) stateFn {
 		// if next item is a number then lex number
 		n := l.next()
 		if isNumeric(n) {
-			// backup twice
+			// back up over both runes: backup() can only undo the last next() (it subtracts
+			// the width of the last rune read), so return to the start of this item instead
 			l.backup()
-			l.backup()
+			l.pos = l.start
 			return lexNumber
 		}
 		// other wise it's a - sign
